@@ -52,13 +52,6 @@ Qed.
 
 (** * Part 2: the engine's steps on positional values *)
 
-(** [parse_positional]'s number of values the positional may still take *)
-Definition eng_num_args (a : arg) : N :=
-  match a_get_action a with
-  | AAppend => usize_max
-  | _ => match a_num a with Some r => vmax r | None => 1 end
-  end.
-
 Lemma find_pos_args c c' n : c_args c = c_args c' -> find_pos c n = find_pos c' n.
 Proof. unfold find_pos, positionals. intros ->. reflexivity. Qed.
 
@@ -153,18 +146,32 @@ Proof.
   apply N.ltb_lt in Hn. unfold eng_num_args in Hn. rewrite Hn. reflexivity.
 Qed.
 
-(** POS_INDEX AGREEMENT, options and single-valued positionals: along [pitems18] the engine's index moves from
-    [pos] to [pos'] exactly as the parser's counter does ([EngineItems.loop_pitems18]) *)
-Theorem eng_pitems evaf pos pre F pos' : pitems18 pc evaf pos pre F pos' ->
-  shadow_run pre cur pos false ValueDone evaf = SNext cur pos' false ValueDone (evaf || negb (is_nil pre)).
+(** the value terminator of the positional at the index, between arguments or while that positional is being filled:
+    the index moves on, back in [ValueDone] (the repair of finding C18-value-terminator) *)
+Lemma eng_pos_term_vd t a pos evaf :
+  possible_subcommand pc t evaf = None -> plain_tok t -> get_pos pc pos = Some a -> check_terminator a t = true ->
+  shadow_step t cur pos false ValueDone evaf = SNext cur (pos + 1) false ValueDone true.
 Proof.
-  induction 1 as [evaf pos|evaf pos toks F pre G pos' Hi Hp IH|evaf pos tok a pre G pos' Hns Hpl Ht Hm Hp IH].
-  - cbn [shadow_run is_nil negb]. rewrite orb_false_r. reflexivity.
-  - rewrite shadow_run_app, (eng_item18 pc cur L toks F pos evaf Hi), IH.
-    pose proof (item18_nonempty pc toks F Hi) as Hne. destruct toks as [|t0 ts]; [discriminate|].
-    cbn [app is_nil negb orb]. rewrite orb_true_r. reflexivity.
-  - cbn [shadow_run]. destruct Ht as [_ [Hg [_ [_ Hct]]]].
-    rewrite (eng_pos_single tok a pos evaf Hns Hpl Hg Hct Hm), IH. cbn [is_nil negb orb]. rewrite orb_true_r. reflexivity.
+  intros Hns Hpl Hg Hct. destruct (eng_plain_lex t Hpl) as [He [Hl Hs]].
+  unfold shadow_step. cbn [negb]. rewrite (eng_not_sub t _ evaf Hns).
+  rewrite He, opt_allows_hyphen_vd, Hl, Hs.
+  unfold parse_positional. rewrite find_pos_el, Hg, is_value_terminator_check, Hct. reflexivity.
+Qed.
+
+Lemma eng_pos_term_pos t a pos k evaf :
+  (is_set s_sub_precedence pc = true -> no_sub pc t) -> plain_tok t -> get_pos pc pos = Some a ->
+  check_terminator a t = true ->
+  shadow_step t cur pos false (Pos pos k) evaf = SNext cur (pos + 1) false ValueDone true.
+Proof.
+  intros Hns Hpl Hg Hct. destruct (eng_plain_lex t Hpl) as [He [Hl Hs]].
+  unfold shadow_step. cbn [negb]. rewrite orb_false_r.
+  assert (Hsub : (if (is_set s_sub_precedence cur && negb (is_set s_args_negate_subs cur && evaf)) && utf8_valid t
+                  then find_subcommand cur t else None) = None).
+  { rewrite <- (lvl_rel_is_set pc cur s_sub_precedence Hrel).
+    destruct (is_set s_sub_precedence pc) eqn:Ep; [|reflexivity].
+    exact (eng_no_sub pc cur t _ Hrel (Hns eq_refl)). }
+  rewrite Hsub, He, opt_allows_hyphen_pos, Hl, Hs.
+  unfold parse_positional. rewrite find_pos_el, Hg, is_value_terminator_check, Hct. reflexivity.
 Qed.
 
 Lemma eng_multi_more a pos : forall vs k,
@@ -198,6 +205,26 @@ Proof.
   rewrite (eng_multi_more a pos vs 1 Hprec Hall') by (cbn [length] in Hn; lia).
   replace (1 + N.of_nat (length vs)) with (N.of_nat (length (v1 :: vs))) by (cbn [length]; lia). reflexivity.
 Qed.
+
+(** POS_INDEX AGREEMENT, options and single-valued positionals: along [pitems18] the engine's index moves from
+    [pos] to [pos'] exactly as the parser's counter does ([EngineItems.loop_pitems18]) *)
+Theorem eng_pitems evaf pos pre F pos' : pitems18 pc evaf pos pre F pos' ->
+  shadow_run pre cur pos false ValueDone evaf = SNext cur pos' false ValueDone (evaf || negb (is_nil pre)).
+Proof.
+  induction 1 as [evaf pos|evaf pos toks F pre G pos' Hi Hp IH|evaf pos tok a pre G pos' Hns Hpl Ht Hm Hp IH
+                   |evaf pos t a pre G pos' Hns Hpl Ht Hp IH|evaf pos a v1 vs t pre G pos' Hmv Hlen Hns Hpl Ht Hp IH].
+  - cbn [shadow_run is_nil negb]. rewrite orb_false_r. reflexivity.
+  - rewrite shadow_run_app, (eng_item18 pc cur L toks F pos evaf Hi), IH.
+    pose proof (item18_nonempty pc toks F Hi) as Hne. destruct toks as [|t0 ts]; [discriminate|].
+    cbn [app is_nil negb orb]. rewrite orb_true_r. reflexivity.
+  - cbn [shadow_run]. destruct Ht as [_ [Hg [_ [_ Hct]]]].
+    rewrite (eng_pos_single tok a pos evaf Hns Hpl Hg Hct Hm), IH. cbn [is_nil negb orb]. rewrite orb_true_r. reflexivity.
+  - cbn [shadow_run]. destruct Ht as [_ [Hg [_ [_ Hct]]]].
+    rewrite (eng_pos_term_vd t a pos evaf Hns Hpl Hg Hct), IH. cbn [is_nil negb orb]. rewrite orb_true_r. reflexivity.
+  - rewrite shadow_run_app, (eng_multi a pos v1 vs evaf Hmv Hlen). cbn [shadow_run]. destruct Ht as [_ [Hg [_ [_ Hct]]]].
+    rewrite (eng_pos_term_pos t a pos _ true Hns Hpl Hg Hct), IH. cbn [app is_nil negb orb]. rewrite orb_true_r. reflexivity.
+Qed.
+
 
 (** a subcommand name behind the values of a multi-valued positional, on a level with
     [subcommand_precedence_over_arg]: the engine descends *)
@@ -337,25 +364,6 @@ Proof.
 Qed.
 
 (** ** the parser side *)
-
-Lemma pos_push_err c a v st e s : pos_push c a v st = RErr e s -> reaction_error c e.
-Proof.
-  unfold pos_push.
-  destruct (negb _ || negb _).
-  - destruct (resolve_pending c st) as [st1|e1 s1|x] eqn:RP; cbn [rbind]; try discriminate.
-    + destruct (pending_values_push _ _ _ _ _); cbn [expect rbind]; discriminate.
-    + intros H. inversion H; subst. eapply resolve_pending_err; eauto.
-  - cbn [rbind]. destruct (pending_values_push _ _ _ _ _); cbn [expect rbind]; discriminate.
-Qed.
-
-Lemma push_all_err c a : forall vs st e s, push_all c a vs st = RErr e s -> reaction_error c e.
-Proof.
-  induction vs as [|v t IH]; intros st e s H; cbn [push_all] in H; [discriminate|].
-  destruct (pos_push c a v st) as [st1|e1 s1|x] eqn:E; cbn [rbind] in H.
-  - eapply IH; eauto.
-  - inversion H; subst. eapply pos_push_err; eauto.
-  - discriminate.
-Qed.
 
 Lemma body18_err c pre F pst pos est : body18 c pre F pst pos est -> forall st e s, F st = RErr e s -> reaction_error c e.
 Proof.
